@@ -931,7 +931,9 @@ func (x *Exec) frameGoals(st *State, only map[string]bool) ([]frameGoal, bool) {
 			continue
 		}
 		if m.Heap != "" {
-			allowedWhole[envOld.compByName(m.Heap)] = true
+			for _, comp := range envOld.compsByName(m.Heap) {
+				allowedWhole[comp] = true
+			}
 			continue
 		}
 		for _, cr := range envOld.modTargets(m) {
